@@ -58,11 +58,14 @@ class RawX12File(object):
         Split the input stream on the delimiter and remove any leading CR-LF
         """
         while True:
-            if self.buffer.find(self.seg_term) == -1:
+            while self.buffer.find(self.seg_term) == -1:
                 # Need more data
-                self.buffer += self.fd.read(DEFAULT_BUFSIZE)
+                chunk = self.fd.read(DEFAULT_BUFSIZE)
+                if not chunk:
+                    break
+                self.buffer += chunk
             if self.buffer.find(self.seg_term) == -1:
-                # Still have no segment terminator
+                # End of input: no further terminated segment
                 break
             # Get first segment in buffer
             (line, self.buffer) = self.buffer.split(self.seg_term, 1)
